@@ -34,6 +34,10 @@ func (c14) Gen(r *rand.Rand, tier string, run int) *core.Case {
 	c.Params["clients"] = clients
 	c.Params["conns"] = 1 + r.IntN(clients)
 	c.Params["subscribers"] = 1 + r.IntN(2)
+	if r.IntN(4) == 0 {
+		c.Params["sibling"] = 1
+		c.Params["sibling_after"] = 30 + r.IntN(200)
+	}
 	if r.IntN(3) == 0 {
 		c.Params["resubscribed"] = 1 + r.IntN(3)
 		c.Params["resubscribed_lifo"] = r.IntN(2)
@@ -244,6 +248,17 @@ func (c14) Run(c *core.Case, env *core.Env) {
 			}
 		}()
 	}
+	var sibling uint32
+	if c.P("sibling", 0) == 1 && c.P("direct", 0) == 0 {
+		zzsim.SetNode("server")
+		sid, err := w.Svc.Add(probe.ProbeObject(&ProbeImpl{Env: env, Obj: 9}))
+		zzsim.SetNode("harness")
+		if err != nil {
+			env.Violate("setup/sibling", "%v", err)
+			return
+		}
+		sibling = sid
+	}
 	// subscribers, each on its own connection, subscribed for the whole run
 	nSub := c.P("subscribers", 1)
 	st.events = make([][]int32, nSub)
@@ -258,6 +273,25 @@ func (c14) Run(c *core.Case, env *core.Env) {
 		if err != nil {
 			env.Violate("setup/proxy", "%v", err)
 			return
+		}
+		if sibling != 0 {
+			// the connection also watches the same property of a second object
+			// of the service, which goes away during the run: what its
+			// subscribers are told is no business of this object's
+			sp, err := ProbeProxy(cl, w.ServiceID, sibling)
+			if err != nil {
+				env.Violate("setup/sibling", "%v", err)
+				return
+			}
+			_, sch, err := sp.SubscribeLevel()
+			if err != nil {
+				env.Violate("setup/sibling", "%v", err)
+				return
+			}
+			go func() {
+				for range sch {
+				}
+			}()
 		}
 		// (the subscription judged may be the connection's third: two earlier
 		// ones, overlapping, were cancelled one after the other before it)
@@ -308,6 +342,17 @@ func (c14) Run(c *core.Case, env *core.Env) {
 		}(i)
 	}
 	env.S.Quiesce()
+	if sibling != 0 {
+		after := c.P("sibling_after", 0)
+		go func() {
+			for j := 0; j < after; j++ {
+				zzsim.Yield("h.sibling-delay")
+			}
+			zzsim.SetNode("server")
+			w.Svc.Remove(sibling)
+			env.Probe("sibling-object-removed")
+		}()
+	}
 	by := map[int][]core.Op{}
 	var actors []int
 	for _, op := range c.Ops {
